@@ -2,11 +2,14 @@
 use serde_json::{Value, json};
 use std::path::Path;
 
+pub mod out;
 pub mod run;
 
 pub fn dispatch(case: &Value, dir: &Path) -> Value {
     match case.get("op").and_then(|x| x.as_str()) {
         Some("run") => run::op_run(case, dir),
+        Some("bufw") => out::op_bufw(case),
+        Some("wfail") => out::op_wfail(case, dir),
         Some(op) => json!({"r": "BADCASE", "msg": format!("unknown op {op}")}),
         None => json!({"r": "BADCASE", "msg": "no op"}),
     }
